@@ -1,4 +1,4 @@
-CONSTANTS Ns = {1,2,3,5,8,13,24}  Threads = {1,2,3,4,8,16}  MinPers = {1,2,3,4}
+CONSTANTS Ns = {1,2,3,5,8,13,24}  Threads = {1,2,3,4,8,16}  MinPers = {1,2,3,4}  Deeps = {0, 250}
 INIT Init
 NEXT Next
 VIEW View
